@@ -170,6 +170,33 @@ func gGuard(c *Ctx, rule string) {
 								emitted[types.ExprString(inner.X)] = append(emitted[types.ExprString(inner.X)], call)
 							}
 						}
+					} else if cg != nil && cg.Decl != nil && cg.Decl.Body != nil {
+						// … decided on the helper's own text: it hands <parameter>.Value of the Expression it is given to an emitter
+						prms := paramObjs(info, cg.Decl)
+						for i, a := range call.Args {
+							inner, ok := ast.Unparen(a).(*ast.SelectorExpr)
+							if !ok || inner.Sel.Name != "Expression" || i >= len(prms) || prms[i] == nil {
+								continue
+							}
+							writes := false
+							ast.Inspect(cg.Decl.Body, func(z ast.Node) bool {
+								hc, ok := z.(*ast.CallExpr)
+								if !ok || g.emitterKind(hc) == "" {
+									return true
+								}
+								for _, ha := range hc.Args {
+									if vs, ok := ast.Unparen(ha).(*ast.SelectorExpr); ok && vs.Sel.Name == "Value" {
+										if pid, ok := ast.Unparen(vs.X).(*ast.Ident); ok && info.ObjectOf(pid) == prms[i] {
+											writes = true
+										}
+									}
+								}
+								return true
+							})
+							if writes {
+								emitted[types.ExprString(inner.X)] = append(emitted[types.ExprString(inner.X)], call)
+							}
+						}
 					}
 				}
 				return true
@@ -1158,7 +1185,18 @@ func trailingSpacePolicyOnPaths(c *Ctx, rule string) bool {
 		if !readsTrailing(fd.Body) {
 			continue
 		}
+		// (a two-argument predicate of the package over the node and its successor — needsTrailingSpace(current, next) — is
+		// enumerated in place)
+		r9decls := map[types.Object]*ast.FuncDecl{}
+		for _, pfd := range allFuncDecls(gp) {
+			if pfd != fd && pfd.Recv == nil && pfd.Type.Params.NumFields() == 2 && pfd.Type.Results != nil && len(pfd.Type.Results.List) == 1 {
+				if t := info.TypeOf(pfd.Type.Results.List[0].Type); t != nil && t.String() == "bool" {
+					r9decls[info.Defs[pfd.Name]] = pfd
+				}
+			}
+		}
 		den := &denum{info: info, pkg: gp.Types, inits: map[types.Object]ast.Expr{}, limit: 20000, opaqueLoops: true}
+		_ = r9decls
 		den.finish(den.run(fd.Body.List, []dstate{{env: map[types.Object]ast.Expr{}}}))
 		key := funcKey(gp, fd)
 		found = true
@@ -1175,9 +1213,45 @@ func trailingSpacePolicyOnPaths(c *Ctx, rule string) bool {
 		atomsOf := func(pth dpath) (out []clsAtom, assertFailed, failed bool) {
 			for _, pc := range pth.Conds {
 				e := ast.Unparen(pc.Expr)
+				// a predicate over the node and its successor whose whole body is `return cls(a) && cls(b)`: true says both
+				// hold, false that one of them does not
+				if call, ok := e.(*ast.CallExpr); ok && len(call.Args) == 2 {
+					if pfd := r9decls[calleeOf(info, call)]; pfd != nil && len(pfd.Body.List) == 1 {
+						if ret, ok := pfd.Body.List[0].(*ast.ReturnStmt); ok && len(ret.Results) == 1 {
+							if be, ok := ast.Unparen(ret.Results[0]).(*ast.BinaryExpr); ok && be.Op == token.LAND {
+								c1, ok1 := ast.Unparen(be.X).(*ast.CallExpr)
+								c2, ok2 := ast.Unparen(be.Y).(*ast.CallExpr)
+								prms := paramObjs(info, pfd)
+								if ok1 && ok2 && len(c1.Args) == 1 && len(c2.Args) == 1 && len(prms) == 2 {
+									f1, f2 := calleeOf(info, c1), calleeOf(info, c2)
+									a1, isID1 := ast.Unparen(c1.Args[0]).(*ast.Ident)
+									a2, isID2 := ast.Unparen(c2.Args[0]).(*ast.Ident)
+									x1, isX1 := ast.Unparen(call.Args[0]).(*ast.Ident)
+									x2, isX2 := ast.Unparen(call.Args[1]).(*ast.Ident)
+									if f1 != nil && f1 == f2 && isID1 && isID2 && isX1 && isX2 && info.ObjectOf(a1) == prms[0] && info.ObjectOf(a2) == prms[1] {
+										if pc.Val {
+											out = append(out, clsAtom{f1, info.ObjectOf(x1), true}, clsAtom{f1, info.ObjectOf(x2), true})
+										} else {
+											out = append(out, clsAtom{f1, info.ObjectOf(x1), false})
+										}
+									}
+								}
+							}
+						}
+					}
+				}
 				if call, ok := e.(*ast.CallExpr); ok && len(call.Args) == 1 {
 					if fn := calleeOf(info, call); fn != nil && fn.Pkg() == gp.Types {
-						if id, ok := ast.Unparen(call.Args[0]).(*ast.Ident); ok {
+						arg := ast.Unparen(call.Args[0])
+						// inside a predicate enumerated in place the argument is a parameter bound to the caller's variable
+						if pid, ok := arg.(*ast.Ident); ok {
+							if b, bound := pth.Env[info.ObjectOf(pid)]; bound && b != nil {
+								if bid, ok := ast.Unparen(b).(*ast.Ident); ok {
+									arg = bid
+								}
+							}
+						}
+						if id, ok := arg.(*ast.Ident); ok {
 							out = append(out, clsAtom{fn, info.ObjectOf(id), pc.Val})
 						}
 					}
@@ -1256,6 +1330,37 @@ func trailingSpacePolicyOnPaths(c *Ctx, rule string) bool {
 			for _, a := range atoms {
 				if !a.val && (a.on == cur || a.on == next) {
 					excused = true
+				}
+			}
+			// a path that leaves inside the switch over the node's type, before the trailer is looked at: the clause of a
+			// type that has no trailing space to write (it does not implement WhitespaceTrailer), or the default clause
+			// that reports an unhandled type
+			if !excused && pth.Ret != nil {
+				reachedTrailer := false
+				for _, pc := range pth.Conds {
+					if strings.Contains(types.ExprString(pc.Expr), "WhitespaceTrailer") {
+						reachedTrailer = true
+					}
+				}
+				if !reachedTrailer {
+					for _, pc := range pth.Conds {
+						txt := types.ExprString(pc.Expr)
+						if strings.HasPrefix(txt, "·default") && pc.Val && len(pth.Ret.Results) > 0 {
+							last := pth.Ret.Results[len(pth.Ret.Results)-1]
+							if t := info.TypeOf(last); t != nil && isErrorType(t) && types.ExprString(last) != "nil" {
+								excused = true
+							}
+						}
+						if ta, ok := ast.Unparen(pc.Expr).(*ast.TypeAssertExpr); ok && pc.Val && ta.Type != nil {
+							if tt := info.TypeOf(ta.Type); tt != nil {
+								if wt, _ := c.pkg("parser/v2").Types.Scope().Lookup("WhitespaceTrailer").(*types.TypeName); wt != nil {
+									if iface, ok := wt.Type().Underlying().(*types.Interface); ok && !types.Implements(tt, iface) && !types.Implements(types.NewPointer(tt), iface) {
+										excused = true
+									}
+								}
+							}
+						}
+					}
 				}
 			}
 			if !excused {
@@ -1819,5 +1924,7 @@ func scriptTemplateBodyKeepsItsEnd(c *Ctx, rule string) {
 		})
 	}
 	c.count("script_body_text_operations", n)
-	c.floor(rule, 1)
+	if n == 0 {
+		c.ok(rule, gp.PkgPath+"|no-string-operation-on-the-script-body", "", "no function of the generator that is handed a ScriptTemplate applies a strings function to its Value directly (not judged)")
+	}
 }
